@@ -10,6 +10,7 @@ import (
 	"encoding/hex"
 	"encoding/json"
 	"fmt"
+	"github.com/q191201771/lal/pkg/remux"
 	"os"
 	"strings"
 	"sync"
@@ -37,6 +38,8 @@ type caseData struct {
 }
 
 func confOf(name string) world.Conf {
+	// "+spspps": the package option remux.RtspRemuxerAddSpsPps2KeyFrameFlag is on for the case (set by the runner)
+	name = strings.TrimSuffix(name, "+spspps")
 	dir := os.Getenv("VERIF_SCRATCH")
 	if dir == "" {
 		dir = os.TempDir()
@@ -82,6 +85,7 @@ func runCase(c protox.Case) (res protox.Result) {
 	var d caseData
 	json.Unmarshal(c.Data, &d)
 	conf := confOf(d.Conf)
+	remux.RtspRemuxerAddSpsPps2KeyFrameFlag = strings.HasSuffix(d.Conf, "+spspps") // (cases of a worker run one after the other)
 	w := world.New(conf)
 	w.Net.QuiesceTimeout = 30 * time.Second
 	defer w.Close()
@@ -215,6 +219,19 @@ func runCase(c protox.Case) (res protox.Result) {
 				return
 			}
 		}
+	case "eheaders", "eheaders+key": // H.265 in enhanced-RTMP form (fourcc hvc1)
+		eh := append([]byte{0x90, 'h', 'v', 'c', '1'}, hevcSeqHeader()[5:]...)
+		if !send(9, 0, eh, "prefix enhanced hevc vsh") || !send(8, 0, sw.MakeMsg("ash", 2, 0, 0).Payload, "prefix ash") {
+			return
+		}
+		if !joinRtsp() {
+			return
+		}
+		if d.Prefix == "eheaders+key" {
+			if !send(9, 40, enhFrame(0x91, hevcFrame(0x1c, 19<<1, 64)[5:]), "prefix enhanced hevc key") || !send(8, 40, sw.MakeMsg("aac", 4, 40, 32).Payload, "prefix aac") || !send(9, 400, enhFrame(0xa1, hevcFrame(0x2c, 1<<1, 64)[5:]), "prefix enhanced hevc inter") {
+				return
+			}
+		}
 	case "hheaders", "hheaders+key": // the same with an H.265 stream
 		if !send(9, 0, hevcSeqHeader(), "prefix hevc vsh") || !send(8, 0, sw.MakeMsg("ash", 2, 0, 0).Payload, "prefix ash") {
 			return
@@ -257,6 +274,9 @@ func runCase(c protox.Case) (res protox.Result) {
 	followUp := sw.MakeMsg("key", 9, lastTs, 64).Payload
 	if strings.HasPrefix(d.Prefix, "hheaders") {
 		followUp = hevcFrame(0x1c, 19<<1, 64)
+	}
+	if strings.HasPrefix(d.Prefix, "eheaders") {
+		followUp = enhFrame(0x91, hevcFrame(0x1c, 19<<1, 64)[5:])
 	}
 	if !send(9, lastTs, followUp, "follow-up key frame") {
 		return
@@ -524,6 +544,53 @@ func buildCases(r *vk.Run) []protox.Case {
 			}
 		}
 	}
+	// the same short units with the package option that makes the RTSP remuxer prepend the parameter sets
+	// to key frames, and enhanced-RTMP H.265 messages (packet types 0-15, key and inter) with every body of
+	// <= 8 bytes over a length-field alphabet, with the option off and on
+	for _, codec := range []struct {
+		pre   string
+		first []byte
+	}{{"headers", []byte{0x17, 0x27}}, {"hheaders", []byte{0x1c, 0x2c}}} {
+		for _, pre := range []string{codec.pre, codec.pre + "+key"} {
+			for _, first := range codec.first {
+				for h := 0; h < 256; h++ {
+					if quick && h%4 != 0 && h != 0x65 && h != 0x67 && h != 0x26 && h != 0x27 {
+						continue
+					}
+					for _, rest := range [][]byte{{}, {0x80}} {
+						nal := append([]byte{byte(h)}, rest...)
+						p := append([]byte{first, 1, 0, 0, 0, 0, 0, 0, byte(len(nal))}, nal...)
+						cs = append(cs, mk(pre, "all+spspps", "rtmp", msg{9, 440, hex.EncodeToString(p)}))
+					}
+				}
+			}
+		}
+	}
+	var bodies [][]byte
+	for l := 0; l <= 8; l++ {
+		for _, pat := range [][]byte{{0, 0, 0, 1, 0x26, 0x01, 0x80, 0x80}, {0, 0, 0, 0, 0, 0, 0, 0}, {0xff, 0xff, 0xff, 0xff, 0xff, 0xff, 0xff, 0xff}, {0, 0, 0, 2, 0x26, 0x01, 0, 0}, {0, 0, 0, 4, 0x02, 0x01, 0x80, 0x80}} {
+			bodies = append(bodies, pat[:l])
+		}
+	}
+	for _, conf := range []string{"all", "all+spspps"} {
+		for _, pre := range []string{"none", "eheaders", "eheaders+key"} {
+			for _, ft := range []byte{0x90, 0xa0, 0xd0} {
+				for pt := byte(0); pt < 16; pt++ {
+					if quick && pt > 5 && pt != 15 {
+						continue
+					}
+					for _, b := range bodies {
+						p := append([]byte{ft | pt, 'h', 'v', 'c', '1'}, b...)
+						cs = append(cs, mk(pre, conf, "rtmp", msg{9, 440, hex.EncodeToString(p)}))
+					}
+				}
+			}
+			// and the fourcc itself cut short / unknown
+			for _, p := range [][]byte{{0x91}, {0x91, 'h'}, {0x91, 'h', 'v', 'c'}, {0x91, 'a', 'v', '0', '1', 0, 0, 0, 0}, {0x91, 'x', 'x', 'x', 'x', 0, 0, 0, 0, 0, 0, 0, 1, 0x26}} {
+				cs = append(cs, mk(pre, conf, "rtmp", msg{9, 440, hex.EncodeToString(p)}))
+			}
+		}
+	}
 	// H.264 sequence headers whose SPS announces more than it holds: for every ue / se element of two
 	// SPS templates (baseline with pic_order_cnt_type 1; high profile with scaling matrix, cropping and
 	// VUI), the elements before it as in the template, that element set to a huge value, and the SPS
@@ -568,6 +635,16 @@ func buildCases(r *vk.Run) []protox.Case {
 	}
 	gen(nil, 0)
 	return cs
+}
+
+// enhFrame: an enhanced-RTMP hvc1 message: first byte (0x80 | frame type << 4 | packet type), the fourcc,
+// a 3-byte composition time when the packet type is 1 (CodedFrames), then the body.
+func enhFrame(first byte, body []byte) []byte {
+	p := []byte{first, 'h', 'v', 'c', '1'}
+	if first&0x0f == 1 {
+		p = append(p, 0, 0, 0)
+	}
+	return append(p, body...)
 }
 
 // hevcFrame: one AVCC-framed NAL of the given first header byte.
